@@ -693,6 +693,33 @@ func runC15(h *H) {
 			r.runOps(f, []nsOp{{Kind: "set", Set: [][2]uint32{{1, 3}, {10, 10}}}, {Kind: "num", A: 4}, {Kind: "num", A: 9}, {Kind: "range", A: 2, B: 12}}, "corpus")
 		}
 	}
+	// the SEARCHRES marker "$" is one particular value: empty sets of every provenance are not it
+	{
+		empties := map[string]imap.UIDSet{"nil": nil, "literal": {}, "make": make(imap.UIDSet, 0, 4), "truncated": imap.UIDSetNum(5)[:0]}
+		for name, u := range empties {
+			desc := map[string]interface{}{"empty_uid_set": name}
+			h.InFlight(desc)
+			if imap.IsSearchRes(u) || u.Dynamic() || u.String() != "" || u.Contains(1) {
+				h.Fail("searchres-confused:"+name, fmt.Sprintf("an empty UID set (%s) is taken for the '$' marker: IsSearchRes=%v Dynamic=%v String=%q", name, imap.IsSearchRes(u), u.Dynamic(), u.String()), desc)
+			}
+			u.AddNum(7)
+			if imap.IsSearchRes(u) || u.Dynamic() || u.String() != "7" {
+				h.Fail("searchres-confused:"+name, fmt.Sprintf("after AddNum(7) on an empty UID set (%s): IsSearchRes=%v Dynamic=%v String=%q", name, imap.IsSearchRes(u), u.Dynamic(), u.String()), desc)
+			}
+			h.Eval("searchres|" + name)
+		}
+		m := imap.SearchRes()
+		if !imap.IsSearchRes(m) || !m.Dynamic() || m.String() != "$" {
+			h.Fail("searchres-marker", fmt.Sprintf("SearchRes(): IsSearchRes=%v Dynamic=%v String=%q", imap.IsSearchRes(m), m.Dynamic(), m.String()), nil)
+		}
+		var sq imap.SeqSet
+		for _, q := range []imap.NumSet{sq, imap.SeqSet{}, imap.SeqSetNum(3)} {
+			if imap.IsSearchRes(q) {
+				h.Fail("searchres-confused:seqset", "a sequence set is taken for the '$' marker", nil)
+			}
+		}
+		h.Eval("searchres|marker")
+	}
 	// 2. exhaustive small scope
 	E := []uint32{0, 1, 2, 3, 5, max32 - 1, max32}
 	var all []nsOp
